@@ -1,63 +1,15 @@
 (* ImpFacts.v — the programs of Gen/Prog.v (translated from src/sbdfstring.c on every run) compute
    the functional model of Charset.v: for every input string, with and without an output buffer. *)
-From Sbdf Require Import Imp Gen.Prog Charset BaseFacts CharsetFacts.
+From Sbdf Require Import Imp Gen.Prog Charset BaseFacts CharsetFacts ImpBase.
 From Coq Require Import ZifyBool.
 Local Open Scope Z_scope.
 Ltac Zify.zify_post_hook ::= Z.div_mod_to_equations.
 
-(* ---- big-step presentation of exec (no fuel) and its soundness ---- *)
-Inductive bs : stmt -> state -> outcome -> Prop :=
-| bs_skip s : bs SSkip s (ONormal s)
-| bs_expr e s v s1 : eval e s = Some (v, s1) -> bs (SExpr e) s (ONormal s1)
-| bs_decl0 x s s1 : set_var x VUndef s = Some s1 -> bs (SDecl x None) s (ONormal s1)
-| bs_decl1 x e s v s1 s2 : eval e s = Some (v, s1) -> set_var x v s1 = Some s2 -> bs (SDecl x (Some e)) s (ONormal s2)
-| bs_seq a b s s1 o : bs a s (ONormal s1) -> bs b s1 o -> bs (SSeq a b) s o
-| bs_seq_ret a b s v s1 : bs a s (OReturn v s1) -> bs (SSeq a b) s (OReturn v s1)
-| bs_if c a b s vc s1 t o : eval c s = Some (vc, s1) -> truth vc = Some t -> bs (if t then a else b) s1 o -> bs (SIf c a b) s o
-| bs_while_f c body s vc s1 : eval c s = Some (vc, s1) -> truth vc = Some false -> bs (SWhile c body) s (ONormal s1)
-| bs_while_t c body s vc s1 s2 o : eval c s = Some (vc, s1) -> truth vc = Some true ->
-    bs body s1 (ONormal s2) -> bs (SWhile c body) s2 o -> bs (SWhile c body) s o
-| bs_while_ret c body s vc s1 v s2 : eval c s = Some (vc, s1) -> truth vc = Some true ->
-    bs body s1 (OReturn v s2) -> bs (SWhile c body) s (OReturn v s2)
-| bs_return e s v s1 : eval e s = Some (v, s1) -> bs (SReturn e) s (OReturn v s1)
-| bs_break s : bs SBreak s (OBreak s)
-| bs_seq_brk a b s s1 : bs a s (OBreak s1) -> bs (SSeq a b) s (OBreak s1)
-| bs_while_brk c body s vc s1 s2 : eval c s = Some (vc, s1) -> truth vc = Some true ->
-    bs body s1 (OBreak s2) -> bs (SWhile c body) s (ONormal s2).
 
-Definition from (f0 : nat) (st : stmt) (s : state) (o : outcome) : Prop := forall f, (f0 <= f)%nat -> exec f st s = o.
 
-Theorem bs_sound st s o : bs st s o -> exists f0, from f0 st s o.
-Proof.
-  induction 1.
-  - exists 1%nat. intros f Hf. destruct f; [lia|reflexivity].
-  - exists 1%nat. intros f Hf. destruct f; [lia|]. cbn [exec]. now rewrite H.
-  - exists 1%nat. intros f Hf. destruct f; [lia|]. cbn [exec]. now rewrite H.
-  - exists 1%nat. intros f Hf. destruct f; [lia|]. cbn [exec]. now rewrite H, H0.
-  - destruct IHbs1 as (f1 & H1), IHbs2 as (f2 & H2). exists (S (Nat.max f1 f2)). intros f Hf. destruct f; [lia|]. cbn [exec].
-    rewrite H1 by lia. apply H2. lia.
-  - destruct IHbs as (f1 & H1). exists (S f1). intros f Hf. destruct f; [lia|]. cbn [exec]. rewrite H1 by lia. reflexivity.
-  - destruct IHbs as (f1 & H2). exists (S f1). intros f Hf. destruct f; [lia|]. cbn [exec]. rewrite H, H0.
-    destruct t; apply H2; lia.
-  - exists 1%nat. intros f Hf. destruct f; [lia|]. cbn [exec]. now rewrite H, H0.
-  - destruct IHbs1 as (f1 & H3), IHbs2 as (f2 & H4). exists (S (Nat.max f1 f2)). intros f Hf. destruct f; [lia|]. cbn [exec].
-    rewrite H, H0, H3 by lia. apply H4. lia.
-  - destruct IHbs as (f1 & H3). exists (S f1). intros f Hf. destruct f; [lia|]. cbn [exec]. rewrite H, H0, H3 by lia. reflexivity.
-  - exists 1%nat. intros f Hf. destruct f; [lia|]. cbn [exec]. now rewrite H.
-  - exists 1%nat. intros f Hf. destruct f; [lia|reflexivity].
-  - destruct IHbs as (f1 & H1). exists (S f1). intros f Hf. destruct f; [lia|]. cbn [exec]. rewrite H1 by lia. reflexivity.
-  - destruct IHbs as (f1 & H3). exists (S f1). intros f Hf. destruct f; [lia|]. cbn [exec]. rewrite H, H0, H3 by lia. reflexivity.
-Qed.
 
-(* ---- helpers ---- *)
-Lemma nth_app_mid {A} (pre : list A) x rest d : nth (Z.to_nat (zlen pre)) (pre ++ x :: rest) d = x.
-Proof. unfold zlen. rewrite Nat2Z.id. rewrite app_nth2 by lia. now rewrite Nat.sub_diag. Qed.
 
-Lemma zlen_length {A} (l : list A) : Z.of_nat (List.length l) = zlen l.
-Proof. reflexivity. Qed.
 
-Lemma signed_unsigned b : 0 <= b <= 255 -> (if b <? 128 then b else b - 256) mod 256 = b.
-Proof. intros H. destruct (b <? 128) eqn:E; lia. Qed.
 
 Definition ov (w : bool) (j : Z) : val := if w then VPtr ROut j else VNull.
 Definition app_w (w : bool) (o x : list Z) : list Z := if w then o ++ x else o.
@@ -68,14 +20,8 @@ Proof. destruct w; cbn; [now rewrite app_assoc|reflexivity]. Qed.
 Lemma truth_ov w j : truth (ov w j) = Some w.
 Proof. now destruct w. Qed.
 
-Lemma chk_ok z : int_min <= z <= int_max -> chk z = Some (VInt z).
-Proof. intros H. unfold chk, Imp.in_int. replace ((int_min <=? z) && (z <=? int_max)) with true by lia. reflexivity. Qed.
 
-Lemma wrap_id z : int_min <= z <= int_max -> (z + 2147483648) mod u32 - 2147483648 = z.
-Proof. unfold int_min, int_max, u32. intros H. lia. Qed.
 
-Lemma char_byte x : 0 <= x <= 255 -> ((x + 128) mod 256 - 128) mod 256 = x.
-Proof. intros H. lia. Qed.
 
 Lemma shiftr6 ch : 0 <= ch <= 255 -> 0 <= Z.shiftr ch 6 <= 3.
 Proof. intros H. rewrite Z.shiftr_div_pow2 by lia. change (2 ^ 6) with 64. lia. Qed.
@@ -86,8 +32,6 @@ Proof.
   rewrite E. lia.
 Qed.
 
-Lemma bs_cast st s s' o o' : bs st s o -> s = s' -> o = o' -> bs st s' o'.
-Proof. now intros H <- <-. Qed.
 
 Ltac ev := cbn [eval lookup update set_var String.eqb Ascii.eqb Bool.eqb vars inb outb truth cast load store incr binop_int b2z fst snd ov].
 
@@ -111,10 +55,7 @@ Proof.
   rewrite nth_app_mid. ev. rewrite signed_unsigned by lia. reflexivity.
 Qed.
 
-Definition loop3 (st : stmt) : stmt := match st with SSeq _ (SSeq _ (SSeq w _)) => w | _ => SSkip end.
-Definition tail3 (st : stmt) : stmt := match st with SSeq _ (SSeq _ (SSeq _ t)) => t | _ => SSkip end.
 
-Ltac chks := rewrite ?chk_ok by (unfold int_min, int_max in *; lia); rewrite ?wrap_id by (unfold int_min, int_max in *; lia).
 Ltac evs := ev; chks; ev; chks; ev; chks; ev.
 (* one store through out: *out++ = e, the buffer written sequentially *)
 Ltac store_tac :=
@@ -218,8 +159,6 @@ Lemma st5_ext i o c r u inp outp i' o' c' r' u' inp' outp' :
   st5 i o c r u inp outp = st5 i' o' c' r' u' inp' outp'.
 Proof. now intros -> -> -> -> -> -> ->. Qed.
 
-(* byte facts, checked for all 256 byte values by computation and lifted *)
-Definition sgn (b : Z) : Z := if b <? 128 then b else b - 256.
 Definition byte_ok (b : Z) : bool :=
   (Z.land (sgn b) 192 =? Z.land b 192) && (0 <=? Z.land b 192) && (Z.land b 192 <=? 192) &&
   (0 <=? Z.land b 31) && (Z.land b 31 <=? 31) && (Z.shiftl (Z.land b 31) 6 =? Z.land b 31 * 64) &&
@@ -237,39 +176,11 @@ Proof.
   unfold byte_ok in S. repeat (apply andb_true_iff in S; destruct S as [S ?]). lia.
 Qed.
 
-Lemma load_mid vs pre b rest outp :
-  load (VPtr RIn (zlen pre)) {| vars := vs; inb := pre ++ b :: rest; outb := outp |} = Some (VInt (sgn b)).
-Proof.
-  cbn [load inb]. rewrite zlen_length, zlen_app, zlen_cons. pose proof (zlen_nonneg pre). pose proof (zlen_nonneg rest).
-  replace ((0 <=? zlen pre) && (zlen pre <? zlen pre + (1 + zlen rest))) with true by lia. now rewrite nth_app_mid.
-Qed.
 
-Lemma incr_mid vs pre b rest outp :
-  incr (VPtr RIn (zlen pre)) {| vars := vs; inb := pre ++ b :: rest; outb := outp |} = Some (VPtr RIn (zlen pre + 1)).
-Proof.
-  cbn [incr inb]. rewrite zlen_length, zlen_app, zlen_cons. pose proof (zlen_nonneg rest).
-  replace (zlen pre <? zlen pre + (1 + zlen rest)) with true by lia. reflexivity.
-Qed.
 
-Lemma load_mid1 vs pre a b rest outp :
-  load (VPtr RIn (zlen pre + 1)) {| vars := vs; inb := pre ++ a :: b :: rest; outb := outp |} = Some (VInt (sgn b)).
-Proof.
-  pose proof (load_mid vs (pre ++ [a]) b rest outp) as H. rewrite zlen_app, zlen_cons in H. change (zlen (@nil Z)) with 0 in H.
-  rewrite Z.add_0_r, <- app_assoc in H. exact H.
-Qed.
 
-Lemma incr_mid1 vs pre a b rest outp :
-  incr (VPtr RIn (zlen pre + 1)) {| vars := vs; inb := pre ++ a :: b :: rest; outb := outp |} = Some (VPtr RIn (zlen pre + 1 + 1)).
-Proof.
-  pose proof (incr_mid vs (pre ++ [a]) b rest outp) as H. rewrite zlen_app, zlen_cons in H. change (zlen (@nil Z)) with 0 in H.
-  rewrite Z.add_0_r, <- app_assoc in H. exact H.
-Qed.
 
-Lemma sgn_mod b : 0 <= b <= 255 -> sgn b mod 256 = b.
-Proof. intros H. unfold sgn. destruct (b <? 128) eqn:E; lia. Qed.
 
-Lemma sgn_range b : 0 <= b <= 255 -> -128 <= sgn b <= 127.
-Proof. intros H. unfold sgn. destruct (b <? 128) eqn:E; lia. Qed.
 
 (* evaluation without unfolding the memory accesses (load_mid / incr_mid are rewritten explicitly) *)
 Ltac ev5 := cbn [eval lookup update set_var String.eqb Ascii.eqb Bool.eqb vars inb outb truth cast store binop_int b2z fst snd ov negb];
